@@ -863,6 +863,56 @@ fn operations(tier: Tier) -> Vec<Operation> {
     ops
 }
 
+/// Extended sweep of the thorough tier: every ordered pair of paths in one request.
+fn deep_operations() -> Vec<Operation> {
+    let mut ops = Vec::new();
+    let eps = [None, Some(0u16), Some(1), Some(2), Some(9)];
+    let cls = [None, Some(CL_A), Some(CL_B), Some(CL_Z)];
+    let attrs = [None, Some(A_RV), Some(A_RA), Some(W_VA), Some(WO_M), Some(F_LIST), Some(ATTR_LIST), Some(A_ABSENT)];
+    let mut rpaths = Vec::new();
+    for ep in eps {
+        for cl in cls {
+            for at in attrs {
+                rpaths.push(Path::new(ep, cl, at));
+            }
+        }
+    }
+    for a in &rpaths {
+        for b in &rpaths {
+            ops.push(Operation::Read { paths: vec![*a, *b], fabric_filtered: true });
+        }
+    }
+    let weps = [Some(0u16), Some(1), Some(2), Some(9), None];
+    let wcls = [Some(CL_A), Some(CL_B), Some(CL_Z)];
+    let (mut wpaths, mut ipaths) = (Vec::new(), Vec::new());
+    for ep in weps {
+        for cl in wcls {
+            for at in [W_VO, W_VM, W_VA, T_VO, A_RV, WO_M, F_LIST, A_ABSENT, ATTR_LIST] {
+                wpaths.push(Path::new(ep, cl, Some(at)));
+            }
+            for cmd in [C_O, C_M, C_A, C_T, C_F, C_ABSENT] {
+                ipaths.push(Path::new(ep, cl, Some(cmd)));
+            }
+        }
+    }
+    for t in [Timed::No, Timed::Yes] {
+        for a in &wpaths {
+            for b in &wpaths {
+                ops.push(Operation::Write { paths: vec![*a, *b], timed: t });
+            }
+        }
+        for a in &ipaths {
+            for b in &ipaths {
+                // (the same path twice in one invoke request is refused as a whole: not a mediation matter)
+                if a != b {
+                    ops.push(Operation::Invoke { paths: vec![*a, *b], timed: t });
+                }
+            }
+        }
+    }
+    ops
+}
+
 fn acls(tier: Tier) -> Vec<AclCfg> {
     let mut v = vec![AclCfg { level: 0, tgt: Tgt::All }];
     for level in 1..=4u8 {
@@ -897,6 +947,14 @@ pub fn run_check(ctx: &Ctx) -> i32 {
                 for op in &ops {
                     specs.push(Spec { node: ni, acl, req, op: op.clone() });
                 }
+            }
+        }
+    }
+    if ctx.replay.is_some() || ctx.deep() {
+        let deep = deep_operations();
+        for acl in acls(Tier::Thorough) {
+            for op in &deep {
+                specs.push(Spec { node: 0, acl, req: Requester::Case1, op: op.clone() });
             }
         }
     }
@@ -937,31 +995,50 @@ pub fn run_check(ctx: &Ctx) -> i32 {
         }
         return common::finish(ctx, report, Evidence::new("exploration"));
     }
-    let results: Vec<Result<Result<(Answer, Vec<Op>, Chunks), String>, common::Panic>> = specs.par_iter().map(|s| common::catch(|| run(s, &nodes_v[s.node].1))).collect();
+    struct Out {
+        failure: Option<(String, String)>,
+        counts: [u64; 5],
+        items: usize,
+        viol: Vec<(String, String)>,
+    }
+    let results: Vec<Out> = specs
+        .par_iter()
+        .map(|s| match common::catch(|| run(s, &nodes_v[s.node].1)) {
+            Err(p) => Out { failure: Some((format!("C06:panic:{}", p.class()), format!("{}", p))), counts: [0; 5], items: 0, viol: vec![] },
+            // a client that never gets an answer is a finding of its own
+            Ok(Err(e)) => Out { failure: Some(("C06:no-answer".to_string(), e)), counts: [0; 5], items: 0, viol: vec![] },
+            Ok(Ok((ans, log, chunks))) => Out {
+                failure: None,
+                counts: [
+                    chunks.len() as u64,
+                    chunks.iter().filter(|c| c.0.status_response.is_some()).count() as u64,
+                    chunks.iter().map(|c| c.0.items.iter().filter(|i| matches!(i, Item::Status { .. })).count() as u64).sum::<u64>() + ans.items.iter().filter(|i| matches!(i, Item::Status { .. })).count() as u64,
+                    ans.items.iter().filter(|i| matches!(i, Item::Data { .. } | Item::CmdData { .. })).count() as u64,
+                    log.iter().filter(|o| !matches!(o, Op::Read { .. })).count() as u64,
+                ],
+                items: ans.items.len(),
+                viol: judge(s, &nodes_v[s.node].1, &ans, &log, &chunks),
+            },
+        })
+        .collect();
     let mut report = Report::new();
     let mut outcomes: BTreeMap<String, u64> = BTreeMap::new();
     let (mut runs, mut data_items, mut effects, mut statuses) = (0u64, 0u64, 0u64, 0u64);
     let (mut chunked, mut chunk_refusals) = (0u64, 0u64);
     for (s, r) in specs.iter().zip(results) {
-        match r {
-            Err(p) => report.violation(format!("C06:panic:{}", p.class()), format!("{}: {}", spec_json(s), p), spec_json(s)),
-            Ok(Err(e)) => {
-                // a client that never gets an answer is a finding of its own
-                report.violation("C06:no-answer".to_string(), format!("{}: {}", spec_json(s), e), spec_json(s));
-            }
-            Ok(Ok((ans, log, chunks))) => {
-                runs += 1;
-                chunked += chunks.len() as u64;
-                chunk_refusals += chunks.iter().filter(|c| c.0.status_response.is_some()).count() as u64;
-                statuses += chunks.iter().map(|c| c.0.items.iter().filter(|i| matches!(i, Item::Status { .. })).count() as u64).sum::<u64>();
-                data_items += ans.items.iter().filter(|i| matches!(i, Item::Data { .. } | Item::CmdData { .. })).count() as u64;
-                statuses += ans.items.iter().filter(|i| matches!(i, Item::Status { .. })).count() as u64;
-                effects += log.iter().filter(|o| !matches!(o, Op::Read { .. })).count() as u64;
-                *outcomes.entry(format!("{:?}", ans.items.iter().map(|i| std::mem::discriminant(i)).collect::<Vec<_>>().len())).or_default() += 1;
-                for (sig, what) in judge(s, &nodes_v[s.node].1, &ans, &log, &chunks) {
-                    report.violation(sig, format!("{}: {}", spec_json(s), what), spec_json(s));
-                }
-            }
+        if let Some((sig, what)) = r.failure {
+            report.violation(sig, format!("{}: {}", spec_json(s), what), spec_json(s));
+            continue;
+        }
+        runs += 1;
+        chunked += r.counts[0];
+        chunk_refusals += r.counts[1];
+        statuses += r.counts[2];
+        data_items += r.counts[3];
+        effects += r.counts[4];
+        *outcomes.entry(format!("{:?}", r.items)).or_default() += 1;
+        for (sig, what) in r.viol {
+            report.violation(sig, format!("{}: {}", spec_json(s), what), spec_json(s));
         }
     }
     let events_part = match super::evw::run_part(ctx.tier, "C06", super::evw::is_c06, &mut report) {
@@ -975,7 +1052,7 @@ pub fn run_check(ctx: &Ctx) -> i32 {
     ev.set("events", events_part.clone());
     ev.set("evaluations", json!(runs + events_part["scenarios"].as_u64().unwrap_or(0)))
         .set("distinct_nontrivial", json!(outcomes.len() as u64 + 2))
-        .set("rule", json!("for 2 node compositions x the access-control catalog (privilege level none/view/operate/manage/admin x target shape all / endpoint / cluster / endpoint+cluster / two targets) x 3 requesters (CASE subject of the entry, PASE, CASE of another fabric) x the operation catalog (reads of every path over endpoint {*,0,1,2,absent} x cluster {*,A,B,absent} x attribute {*, 5 access classes, global, absent} fabric-filtered or not, and lists of two paths in both orders; writes and invocations of every concrete and endpoint-wildcard path x {untimed, timed, window expired, flag without window, window without flag}; multi-element requests): the data returned, the handler calls and the statuses must equal the reference derived from the node composition, the ACL and the access declarations"))
+        .set("rule", json!("for 2 node compositions x the access-control catalog (privilege level none/view/operate/manage/admin x target shape all / endpoint / cluster / endpoint+cluster / two targets) x 3 requesters (CASE subject of the entry, PASE, CASE of another fabric) x the operation catalog (reads of every path over endpoint {*,0,1,2,absent} x cluster {*,A,B,absent} x attribute {*, 5 access classes, global, absent} fabric-filtered or not, and lists of two paths in both orders; writes and invocations of every concrete and endpoint-wildcard path x {untimed, timed, window expired, flag without window, window without flag}; multi-element requests; writes carried by two or three messages; thorough tier: every ordered pair of read paths, of write paths (untimed / timed) and of distinct invoke paths in one request, for the CASE subject under every access-control configuration): the data returned, the handler calls and the statuses must equal the reference derived from the node composition, the ACL and the access declarations"))
         .set("samples", json!([spec_json(&specs[0]), spec_json(&specs[specs.len() / 2])]))
         .set("vacuity", json!({"runs": runs, "data_items_returned": data_items, "writes_and_invocations_observed": effects, "statuses_returned": statuses, "messages_of_chunked_writes_answered": chunked, "chunked_write_messages_refused_as_a_whole": chunk_refusals}))
         .set("exhaustive_within_bound", json!(true));
